@@ -9,7 +9,7 @@
    consumed (POSTCONDITION AllConsumed); each event's verdict (ok / skip / a
    diagnosis) goes to the verdict file, so that one rejected event never hides
    the rest of the trace. *)
-EXTENDS SemOverflow, AsCodedOverflow, SemScaled, SemRounding, AsCodedRounding, AsCodedRConv, SemElastic, SemSqrt, SemFraction, SemWide, SemNative, SemParse, SemMath, AsCodedToChars, AsCodedMakeFraction, TLC, TLCExt, Json, IOUtils, CSV
+EXTENDS SemOverflow, AsCodedOverflow, SemScaled, SemRounding, AsCodedRounding, AsCodedRConv, SemElastic, SemSqrt, SemFraction, SemWide, SemNative, SemParse, SemMath, AsCodedToChars, AsCodedMakeFraction, AsCodedExp2, TLC, TLCExt, Json, IOUtils, CSV
 
 Tr == ndJsonDeserialize(IOEnv.TRACE)
 Insts == ndJsonDeserialize(IOEnv.INSTS)
@@ -85,6 +85,8 @@ AsCoded(e, i) ==
       [] e.e = "RDiv" ->
            MatchesAsCodedRound(AsCodedRoundDiv(i.tag, TV(AsIntT(i.lt), J(e.l)), TV(AsIntT(i.rt), J(e.r))), e.out, J(e.res))
       [] e.e = "ElBin" -> AsCodedElBin(e, i)
+      [] e.e = "Exp2" ->
+           LET r == AsCodedExp2(J(e.x), AsIntT(InnerT(i.lt)), ExpOf(i.lt)) IN ~r.ub /\ e.out = "ok" /\ J(e.res) = r.v
       [] e.e = "FrFromFloat" ->
            IF e.x.c # "fin" THEN FALSE
            ELSE MatchesMakeFraction(AsCodedMakeFraction(e.x, i.lt.p, AsIntT(i.rt.num)), e.out, J(e.res[1]), J(e.res[2]))
